@@ -1,3 +1,4 @@
+import TmcgProps.C19Enc
 import TmcgProofs.Pgp
 /-
   C19 — OpenPGP encodings conform to the standard and round-trip.
